@@ -5,6 +5,7 @@ import warnings
 import numpy as np
 
 from harness.core import Machinery
+from checks import binding
 
 BITS = 24
 
@@ -90,7 +91,7 @@ def build(T, c):
 
 
 def exact_cases(ctx):
-    res = ctx.tlc("TransformExactDump", "MC_TransformExact.cfg", workers=8, timeout=1200)
+    res = ctx.tlc("TransformExactDump", "MC_TransformExact.cfg", timeout=1200)
     if res.violated:
         raise Machinery("TransformExact.tla violates its own checks: %s" % res.violated)
     cases = res.printed()
@@ -220,9 +221,10 @@ def validate(ctx, recs, prop):
     with open(path, "w") as f:
         for r in recs:
             f.write(json.dumps({k: r[k] for k in r if k not in ("label", "points")}) + "\n")
-    res = ctx.tlc("TransformTrace", "MC_TransformTrace.cfg", workers=1, timeout=3000, heap="6g", env={"TRACE_FILE": str(path)})
+    res = ctx.tlc("TransformTrace", "MC_TransformTrace.cfg", timeout=3000, heap="6g", env={"TRACE_FILE": str(path)})
     if not res.tuples("VALIDATED"):
         raise Machinery("TransformTrace did not complete:\n" + res.out[-2500:])
+    ctx.binding_demo("TransformTrace", "MC_TransformTrace.cfg", path, binding.transform, timeout=3000, heap="6g")
     inc = res.tuples("INCONCLUSIVE")
     ninc = int(inc[0].strip("<>").split(",")[1]) if inc else 0
     for line in res.tuples("REJECT"):
